@@ -41,6 +41,15 @@ fn run(dir: &std::path::Path, args: &[OsString], stdin: Option<&[u8]>) -> Result
             let _ = si.flush();
             std::thread::sleep(std::time::Duration::from_millis(25));
             let _ = si.write_all(&data[cut..]);
+        } else if data.len() > 32 * 1024 {
+            // a long input is written from a thread of its own: the child's output is collected meanwhile (both pipes are finite)
+            let owned = data.to_vec();
+            let t = std::thread::spawn(move || {
+                let _ = si.write_all(&owned);
+            });
+            let o = child.wait_with_output().map_err(|e| format!("ENGINE: wait: {}", e))?;
+            let _ = t.join();
+            return Ok(Out { code: o.status.code(), stdout: o.stdout, stderr: o.stderr });
         } else {
             let _ = si.write_all(data);
         }
@@ -345,6 +354,56 @@ pub fn check_special(c: &SpecialCase) -> Result<(), String> {
     let want = if c.flags % 4 == 3 { format!("BLAKE3 ({}) = {}\n", c.path, digest) } else { format!("{}  {}\n", digest, c.path) };
     ensure!(out.code == Some(0), "b3sum {:?} exited with {:?}; stderr: {}", args, out.code, String::from_utf8_lossy(&out.stderr));
     ensure!(out.stdout == want.as_bytes(), "b3sum {:?} ({} bytes, cannot be memory-mapped or has no length) printed {:?}, expected {:?}", args, before.len(), String::from_utf8_lossy(&out.stdout), want);
+    Ok(())
+}
+
+// ---------------------------------------------------------------------------
+// many failures in one run (the exit status must stay non-zero however many there are)
+// ---------------------------------------------------------------------------
+#[derive(Clone, Debug, Serialize, Deserialize)]
+pub struct ManyCase {
+    pub failures: u32,
+    /// 0 = --check with that many entries for missing files (+1 good entry), 1 = that many missing arguments (+1 file),
+    /// 2 = --check with that many stale entries (+1 good entry)
+    pub kind: u8,
+}
+
+pub fn check_many(c: &ManyCase) -> Result<(), String> {
+    let dir = TempDir::new()?;
+    std::fs::write(dir.0.join("good"), b"hi\n").map_err(|e| format!("ENGINE: {}", e))?;
+    let good_hex = hex(&b3spec::root(&b3spec::KeyFlags::hash(), b"hi\n").hash());
+    let n = c.failures as usize;
+    match c.kind % 3 {
+        1 => {
+            let mut args: Vec<OsString> = Vec::new();
+            for i in 0..n {
+                args.push(format!("missing-{}", i).into());
+            }
+            args.push("good".into());
+            let out = run(&dir.0, &args, None)?;
+            ensure!(out.code.is_some() && out.code != Some(0), "b3sum with {} missing arguments exited with {:?}", n, out.code);
+            ensure!(out.stdout == format!("{}  good\n", good_hex).as_bytes(), "b3sum with {} missing arguments and one file printed {:?}", n, String::from_utf8_lossy(&out.stdout));
+        }
+        k => {
+            let mut text = String::new();
+            if k == 2 {
+                std::fs::write(dir.0.join("stale"), b"changed").map_err(|e| format!("ENGINE: {}", e))?;
+            }
+            for i in 0..n {
+                if k == 2 {
+                    text.push_str(&format!("{}  stale\n", good_hex));
+                } else {
+                    text.push_str(&format!("{}  missing-{}\n", good_hex, i));
+                }
+            }
+            text.push_str(&format!("{}  good\n", good_hex));
+            let out = run(&dir.0, &["--check".into(), "-".into()], Some(text.as_bytes()))?;
+            ensure!(out.code.is_some() && out.code != Some(0), "b3sum --check with {} failing entries exited with {:?}", n, out.code);
+            let failed = out.stdout.split(|b| *b == b'\n').filter(|l| l.windows(8).any(|w| w == b": FAILED")).count();
+            let ok = out.stdout.split(|b| *b == b'\n').filter(|l| l.ends_with(b": OK")).count();
+            ensure!(failed == n && ok == 1, "b3sum --check with {} failing entries and one good entry printed {} FAILED and {} OK lines", n, failed, ok);
+        }
+    }
     Ok(())
 }
 
@@ -729,6 +788,28 @@ pub fn subs() -> Vec<Box<dyn DynSub>> {
             strategy: hash_strategy,
             classify: classify_hash,
             check: check_hash,
+            known: None,
+            crumb: false,
+        }),
+        Box::new(crate::runner::EnumSub::<ManyCase> {
+            name: "many-failures-cli",
+            rule: "enumeration: 1, 2, 255, 256, 257, 512 and 65536 failures in one run x {--check entries for missing files, missing arguments, --check stale entries}, always with one good entry / file: the exit status is non-zero, exactly that many FAILED lines and one OK line (or exactly the good file's line) are printed",
+            items: |tier| {
+                let mut v = Vec::new();
+                for kind in 0..3u8 {
+                    for n in [1u32, 2, 255, 256, 257, 512] {
+                        v.push(ManyCase { failures: n, kind });
+                    }
+                }
+                v.push(ManyCase { failures: 65536, kind: 0 });
+                if tier == Tier::Thorough {
+                    v.push(ManyCase { failures: 65536, kind: 2 });
+                }
+                Box::new(v.into_iter())
+            },
+            classify: |c| Classes::new(c.failures >= 2).tag(c.failures % 256 == 0, "failures-multiple-of-256"),
+            check: check_many,
+            exhaustive: false,
             known: None,
             crumb: false,
         }),
